@@ -199,6 +199,19 @@ def job_row(i, tier, seed):
         if types[0] == 'Alm':
             extra = [z3.And(*[F(0) != forms.ENUMS['Alm'].index(m_) for m_ in MULOPS])]
         spec = over_acc('Ax', F(2), lambda acc: over_op(types[0], F(0), lambda opn: spec_alm(R, opn, val, acc), allowed))
+    elif nm == 'alm' and types == ('Alm', 'Register', 'Ax'):
+        # register operands that are plain 16-bit reads of the state (operand.h Register order): r0..r5, r7, y0, the accumulator
+        # halves, sv. The read does NOT saturate (that is the mov family's privilege). The 40-bit sources (p, a0, a1), the
+        # status words, pc/sp/lc/ext are left to the reference comparison.
+        REG = {0: R['r[0]'], 1: R['r[1]'], 2: R['r[2]'], 3: R['r[3]'], 4: R['r[4]'], 5: R['r[5]'], 6: R['r[7]'], 7: R['y[0]'],
+               16: z3.Extract(31, 16, R['b[0]']), 17: z3.Extract(31, 16, R['b[1]']), 18: z3.Extract(15, 0, R['b[0]']), 19: z3.Extract(15, 0, R['b[1]']),
+               26: z3.Extract(15, 0, R['a[0]']), 27: z3.Extract(15, 0, R['a[1]']), 28: z3.Extract(31, 16, R['a[0]']), 29: z3.Extract(31, 16, R['a[1]']), 31: R['sv']}
+        idx = F(1)
+        val = None
+        for k_, t_ in REG.items():
+            val = t_ if val is None else z3.If(idx == k_, t_, val)
+        extra = [z3.Or(*[idx == k_ for k_ in REG]), z3.And(*[F(0) != forms.ENUMS['Alm'].index(m_) for m_ in MULOPS])]
+        spec = over_acc('Ax', F(2), lambda acc: over_op('Alm', F(0), lambda opn: spec_alm(R, opn, val, acc), ALLOWED))
     elif nm in ('or_', 'and_') and len(types) == 3:
         def f(acc):
             va, vb = alu.acc_sel(R, F(0), accs(types[0])), alu.acc_sel(R, F(1), accs(types[1]))
